@@ -1,1 +1,23 @@
-fn main() {}
+//! l1base: runtime monitors; usage: l1base <property> --seed S --tier quick|thorough --shard i --shards n [--budget N] --out frag.json [--replay file]
+mod c03;
+mod c05;
+mod c18;
+
+use vcore::{Args, Report};
+
+fn main() {
+    let args = Args::parse();
+    let prop = args.pos.first().cloned().unwrap_or_default();
+    vcore::panics::install(!args.flag("loud"));
+    let mut rep = Report::new(&prop.to_uppercase(), args.seed());
+    match prop.as_str() {
+        "c03" => c03::run(&args, &mut rep),
+        "c05" => c05::run(&args, &mut rep),
+        "c18" => c18::run(&args, &mut rep),
+        other => {
+            eprintln!("unknown property {other}");
+            std::process::exit(2);
+        }
+    }
+    rep.finish(args.get("out"));
+}
